@@ -100,6 +100,15 @@ CLAIMED = {
             'server-side indication). After each command the present value and the whole priority array are read and compared with the reference model.',
             'Trusted: the reference model; priority 6 not commanded on binary objects with minimum times; DateTime objects always get a relinquish default; runs are cut at an exact tie between an operation and a hold expiry.',
             'DESIGN.md section 3 (C17)'),
+    'C19': ('exploration',
+            'deterministic simulation: enumerated + seeded operation histories on the real RouterInfoCache against a reference map; the same histories as real network-layer messages delivered in seeded order into a station stack, next hop observed on the wire',
+            'Part (i): all operation sequences of bounded length and seeded sequences of up to 300 operations over {learn, forget router, forget destinations (of a router), renumber} on the real '
+            'RouterInfoCache; after each operation every (source network, destination) lookup is compared with a reference map and every destination credited to a router must resolve to it. '
+            'Part (ii): competing I-Am-Router-To-Network announcements from raw router nodes delivered in simulator-decided order (jitter up to 2 s), routed traffic revealing source networks, '
+            'Network-Number-Is, public delete calls, into a complete station stack; after each step the station sends to every destination network and the next-hop MAC on the wire must be the '
+            'router the reference map (which follows the delivery order) names, or a Who-Is-Router-To-Network when nothing is known.',
+            'Trusted: the reference map; renumbering targets unused numbers; a run is not judged further after a public call raised; parked packets released later are not judged.',
+            'DESIGN.md section 3 (C19)'),
     'C14': ('exploration',
             'deterministic simulation of the real scheduler under both real loop drivers (run_once stepped; run() with shimmed asyncore and in-memory trigger), reference-scheduler monitor',
             'Every history (enumerated short op sequences over 2-3 tasks with colliding times, every subset of raising members in deferred batches and same-instant '
